@@ -381,7 +381,7 @@ def job_static(job):
                         error=errname)
     # (c) header list size limits
     for limit, later in ((65536, None), (100, None), (65537, None), (200, 60000), (60000, 200), (300, "with-table-size"),
-                         (65536, "raised-and-restored")):
+                         (65536, "raised-and-restored"), (65536, "refused-larger-first")):
         h = H.Solo(client)
         h.rx([wire.settings([], ack=True)])
         if later == "raised-and-restored":
@@ -389,6 +389,14 @@ def job_static(job):
             h.api("update_settings", {wire.S_MAX_HEADER_LIST_SIZE: 200000})
             h.api("update_settings", {wire.S_MAX_HEADER_LIST_SIZE: 65536})
             h.rx([wire.settings([], ack=True)])
+            h.rx([wire.settings([], ack=True)])
+            later = None
+        elif later == "refused-larger-first":
+            # update_settings({MAX_HEADER_LIST_SIZE: 2^20, MAX_FRAME_SIZE: 1}) is refused as a whole; an unrelated change is
+            # sent and acknowledged afterwards: the limit the peer was told (65536) is still the one in force
+            o = h.api("update_settings", {wire.S_MAX_HEADER_LIST_SIZE: 2 ** 20, wire.S_MAX_FRAME_SIZE: 1})
+            assert o.kind == "raise" and not o.raw, o.brief()
+            h.api("update_settings", {wire.S_MAX_CONCURRENT_STREAMS: 50})
             h.rx([wire.settings([], ack=True)])
             later = None
         elif later == "with-table-size":
